@@ -63,12 +63,12 @@ pub fn run(args: &Args) -> i32 {
         zs.push((k, 0.5 * (lo + zb)));
     }
     let maxlen = tabs.iter().map(|t| t.0.len()).max().unwrap();
-    let tv: u64 = if args.tier == Tier::Thorough { 9 + 255 } else { 9 };
+    let tv: u64 = if args.tier == Tier::Thorough { 9 + 255 } else { 9 + 15 };
     let nz = zs.len() as u64;
     rep.cov("tables", json!(nt));
     rep.cov("largest_z_bound", json!(zmax));
 
-    rep.run("knots-and-neighbours", nz * 2 * maxlen as u64 * tv, 60, true, "92 slices x z in {upper bound, upper bound -1ulp, lower bound +1ulp, midpoint} x sign x every tabulated time x {knot, +-1ulp, midpoint to next, quarter points, +2/+4/+6 ns; thorough: all 1/256 points}; each compared with the table and with the lookup 8 ns later and at -z", |idx, loc| {
+    rep.run("knots-and-neighbours", nz * 2 * maxlen as u64 * tv, 60, true, "92 slices x z in {upper bound, upper bound -1ulp, lower bound +1ulp, midpoint} x sign x every tabulated time x {knot, +-1ulp, midpoint to next, quarter points, +2/+4/+6 ns; all 1/16 points (thorough: 1/256)}; each compared with the table and with the lookup 8 ns later and at -z", |idx, loc| {
         let d = unrank(idx, &[tv, maxlen as u64, 2, nz]);
         let (slice, zabs) = zs[d[3] as usize];
         let tab = &tabs[slice].0;
@@ -89,8 +89,8 @@ pub fn run(args: &Args) -> i32 {
             6 => tk + 2e-9,
             7 => tk + 4e-9,
             8 => tk + 6e-9,
-            // thorough: 256 subdivisions of the knot interval (31.25 ps steps)
-            k => tk + (k - 8) as f64 / 256.0 * (tn - tk),
+            // 16 (quick) / 256 (thorough) subdivisions of the knot interval
+            k => tk + (k - 8) as f64 / (tv - 8) as f64 * (tn - tk),
         };
         check_point(&tabs, slice, z, t, if d[0] == 0 { Some(k) } else { None }, loc);
     });
